@@ -5,7 +5,9 @@ import json, os, shutil, subprocess, sys, tempfile, concurrent.futures as cf
 VERIF = "/verif"
 jobs = int(sys.argv[1]) if len(sys.argv) > 1 else 3
 tier = sys.argv[2] if len(sys.argv) > 2 else "quick"
-EXTRA = {"C02-2": ["C09"], "C09-3": ["C07"], "C05-1": ["C10"], "C06-2": ["C13"], "C06-1": ["C16"], "C01-2": ["C06"], "C03-1": ["C16", "C01"], "C03-2": ["C16"], "C04-3": ["C12"], "C11-1": ["C01"], "C11-3": ["C01"], "C07-3": ["C10"], "C04-2": ["C02"], "C02-3": ["C11"]}
+EXTRA = {"C02-2": ["C09"], "C09-3": ["C07"], "C05-1": ["C10"], "C06-2": ["C13"], "C06-1": ["C16"], "C01-2": ["C06"], "C03-1": ["C16", "C01"], "C03-2": ["C16"], "C04-3": ["C12"], "C11-1": ["C01"], "C11-3": ["C01"], "C07-3": ["C10"], "C04-2": ["C02"], "C02-3": ["C11"],
+         "C01-7": ["C02", "C06"], "C01-8": ["C11"], "C02-8": ["C01"], "C06-7": ["C10"], "C08-7": ["C09"], "C10-6": ["C07"], "C10-8": ["C09"], "C11-7": ["C01"],
+         "C03-5": ["C20"], "C12-5": ["C10"], "C20-5": ["C03"], "C09-5": ["C10"], "C10-4": ["C07"], "C02-5": ["C11"], "C07-5": ["C09"]}
 
 def run(seed):
     d = os.path.join(VERIF, "seeded", seed)
